@@ -1046,6 +1046,95 @@ def rule_find_holds(ctx):
         raise AnalysisBroken("only %d handle lookups found" % n)
 
 
+# ---------------------------------------------------------------------------
+# R12: admitted, then found closing: the object is retired, not merely released
+
+
+def _retires(prog, g, lists, depth=0):
+    """g, on every path to its exit, takes its argument off one of the lists or marks it closed (a store of true into a
+    boolean field / an atomic swap to true), directly or through a callee that does"""
+    if g is None or g.cfg_failed:
+        return False
+    marks = set()
+    for c in g.calls():
+        fnm = c.node.get("fn")
+        if fnm in LIST_REMOVE and c.node["args"] and last_field(g.expand(c.node["args"][0])) in lists:
+            marks.add((c.b, c.i))
+        elif fnm in ("nni_atomic_swap_bool", "nni_atomic_set_bool") and len(c.node["args"]) > 1 and const_of(g.expand(c.node["args"][1])) not in (None, 0):
+            marks.add((c.b, c.i))
+        elif fnm and depth < 2:
+            h = prog.resolve(g, fnm)
+            if h is not None and h is not g and h.file == g.file and _retires(prog, h, lists, depth + 1):
+                marks.add((c.b, c.i))
+    for t in g.assigns():
+        l = t.node["lhs"]
+        if l.get("k") == "mem" and (l.get("t") or "") in ("bool", "_Bool") and const_of(g.expand(t.node["rhs"])) not in (None, 0):
+            marks.add((t.b, t.i))
+    return bool(marks) and g.dominated_by((g.exit, 0), blocked=lambda b, i, e: (b, i) in marks)
+
+
+def rule_admitted_then_closing(ctx):
+    from .. import guards as G
+    r = ctx.rule("C10.R12", "T2", "admitted, then found closing: a function that has put a new object on a list a closer waits to see empty "
+                 "and then finds the owner closing retires the object on that path (takes it off the list, or closes it so that "
+                 "its last release does) -- a mere release of a never-closed object leaves it on the list and the closer "
+                 "waits forever", floor=1)
+    prog = ctx.prog
+    waits = wait_conditions(prog)
+    gate_lists = {}
+    for wf, ws, cv, fields in waits:
+        for lf, pol in fields.items():
+            if pol > 0 and prog.records.get(lf.split(".")[0]) and any(
+                    x["n"] == lf.split(".", 1)[1] and x.get("rec") == "nni_list" for x in prog.records[lf.split(".")[0]]["fields"]):
+                gate_lists.setdefault(lf, (wf, ws))
+    n = 0
+    for lf, (wf, ws) in sorted(gate_lists.items()):
+        owner = lf.split(".")[0]
+        for f in prog.functions:
+            if f.cfg_failed:
+                continue
+            for c in f.calls(LIST_ADD):
+                if len(c.node["args"]) < 2 or last_field(f.expand(c.node["args"][0])) != lf:
+                    continue
+                obj = f.expand(c.node["args"][1])
+                if obj is None or obj.get("k") != "var":
+                    continue
+                after = f.reach((c.b, c.i + 1))
+                for bid, k, atom, val in G.edge_facts(f):
+                    if not val or atom.get("k") != "mem" or (atom.get("t") or "") not in ("bool", "_Bool"):
+                        continue
+                    alf = last_field(atom) or ""
+                    if alf.split(".")[0] != owner or (bid, len(f.blocks[bid].elems)) not in after:
+                        continue
+                    tgt = f.blocks[bid].succs[k]
+                    if tgt is None:
+                        continue
+                    n += 1
+                    region = f.reach((tgt, 0))
+                    ok = None
+                    for c2 in f.calls():
+                        if (c2.b, c2.i) not in region:
+                            continue
+                        if not any((lambda a: a is not None and a.get("k") == "var" and a["n"] == obj["n"])(f.expand(a)) for a in c2.node["args"] if a is not None):
+                            continue
+                        fnm = c2.node.get("fn")
+                        if fnm in LIST_REMOVE and last_field(f.expand(c2.node["args"][0])) == lf:
+                            ok = fnm
+                        g = prog.resolve(f, fnm) if fnm else None
+                        if g is not None and _retires(prog, g, {lf}):
+                            ok = fnm
+                    if ok:
+                        r.ob(f, "%s admitted to %s, %s found set: retired by %s" % (obj["n"], lf, alf, ok))
+                    else:
+                        ctx.fail(r, f, "%s left on %s when %s is found set" % (obj["n"], lf.split(".")[1], alf.split(".")[1]), f.line_of(bid, 0),
+                                 "%s appends %s to %s (line %s) and then finds %s set; on that path the object is neither taken off "
+                                 "the list nor closed (a release of a never-closed object only drops the count): it stays on the "
+                                 "list, and the closer waiting at %s:%s for the list to empty never returns"
+                                 % (f.name, obj["n"], lf, c.line, alf, wf.name, ws.line))
+    if n < 1:
+        raise AnalysisBroken("no admit-then-check site found for the lists closers wait on")
+
+
 def rule_closeall(ctx):
     """C10.R5: a close / fini function looks at every parked-operation field it handles on every path"""
     from .. import guards as G
@@ -1096,6 +1185,7 @@ def run(ctx):   # noqa: F811
     ctx.guard(rule_unlinked)
     ctx.guard(rule_no_park_after_close)
     ctx.guard(rule_find_holds)
+    ctx.guard(rule_admitted_then_closing)
     ctx.guard(rule_wakeups)
     from . import c02
     ctx.guard(c02.rule_a7)
